@@ -227,10 +227,29 @@ def make_pattern(p, mode=None):
                        singleton=p["single"])
 
 
-def make_event(e, textdata=False):
+class RaisingNumber:
+    """a datum that is not an int and whose conversion to int raises the given exception (like float('inf') ->
+    OverflowError): the CAST of a typed predicate fails with something other than TypeError / ValueError"""
+
+    def __init__(self, exc, shown):
+        self.exc, self.shown = exc, shown
+
+    def __int__(self):
+        raise self.exc("scripted cast failure")
+
+    __index__ = __float__ = __int__
+
+    def __repr__(self):
+        return "RaisingNumber(%s, %r)" % (self.exc.__name__, self.shown)
+
+
+def make_event(e, textdata=False, castraise=None):
+    """castraise = (timestamps, exception name): simple events with those timestamps carry a RaisingNumber"""
     from bobocep.cep.event import BoboEventSimple, BoboEventComplex, BoboEventAction, BoboHistory
     i, ts, kind, data, ph, pat = e
     d = None if data == -1 else (str(data) if textdata else data)
+    if castraise and kind == 0 and ts in castraise[0]:
+        d = RaisingNumber(EXC[castraise[1]], data)
     if kind == 0:
         return BoboEventSimple(event_id="e%d" % i, timestamp=ts, data=d)
     if kind == 1:
